@@ -39,7 +39,7 @@ class GrammarSemantics(ModelBuilderSemantics):
         cls._validate_literal(ast)
         try:
             re.compile(str(ast))
-        except (TypeError, re.error) as e:
+        except (TypeError, OverflowError, re.error) as e:
             raise FailedSemantics(f'"{ast!r}"pattern error: {e!s}') from e
 
     def token(self, ast: str) -> g.Token:
@@ -100,21 +100,36 @@ class GrammarSemantics(ModelBuilderSemantics):
 
     def string(self, ast):
         value = ast
-        return eval_escapes(value)
+        try:
+            return eval_escapes(value)
+        except ValueError as e:
+            raise FailedSemantics(f'literal string error: {e!s}') from e
 
     def multiline_string(self, ast):
         value = ast
         value = trim(value.strip()).rstrip()
-        return eval_escapes(value)
+        try:
+            return eval_escapes(value)
+        except ValueError as e:
+            raise FailedSemantics(f'literal string error: {e!s}') from e
 
     def hex(self, ast):
-        return int(ast, 16)
+        try:
+            return int(ast, 16)
+        except ValueError as e:
+            raise FailedSemantics(f'literal number error: {e!s}') from e
 
     def float(self, ast):
-        return float(ast)
+        try:
+            return float(ast)
+        except ValueError as e:
+            raise FailedSemantics(f'literal number error: {e!s}') from e
 
     def int(self, ast):
-        return int(ast)
+        try:
+            return int(ast)
+        except ValueError as e:
+            raise FailedSemantics(f'literal number error: {e!s}') from e
 
     def none(self, _ast):
         return None
@@ -137,7 +152,10 @@ class GrammarSemantics(ModelBuilderSemantics):
     # JSON
     def number(self, ast):
         if isinstance(ast, str):
-            return literal_eval(ast)
+            try:
+                return literal_eval(ast)
+            except (SyntaxError, ValueError) as e:
+                raise FailedSemantics(f'literal number error: {e!s}') from e
         return ast
 
     def cut_deprecated(self, _ast):
@@ -214,6 +232,11 @@ class GrammarSemantics(ModelBuilderSemantics):
         for value in directives.values():
             literal_eval(repr(value))
         keywords = tuple(flatten(ast.keywords)) or ()
+
+        whitespace = directives.get('whitespace')
+        if isinstance(whitespace, str) and whitespace not in {'None', 'False'}:
+            # NOTE: the value may have been written as a string, not as a /regex/
+            self._validate_pattern(whitespace)
 
         if directives.get('whitespace') in {'None', 'False'}:
             # NOTE: use '' because None will _not_ override defaults in configuration
